@@ -3,11 +3,14 @@
 
   `permuteMatrix`, `EncodeRingT` / `DecodeRingT` (uint64 and int64 paths, sign trick, zero fill),
   `RingT2Q` / `RingQ2T` (gap embedding, T⁻¹ lift, level-0 and level>0 branches, gap = 1 and gap > 1),
-  `Encode` / `Decode` (batched and coefficient domain).  The Q side is a canonical `RPoly`
-  (coefficient domain, reduced rows) — what `Canon` of the harness returns for the plaintext polynomial.
-  Scalar products and reductions are written as exact modular arithmetic (their word-level
-  implementations MRed / MForm / BRedAdd are C01's `ModRed` theorems); the transform over Z_t is the
-  bit-exact `NTT.nttStd` / `NTT.inttStd`.  Core Lean only.
+  `Encode` / `Decode` (batched and coefficient domain), `Embed` / `EmbedScale` (`embed`: the Q part or a plain
+  `ring.Poly`; `embedP` / `ringT2P`: the P part of a `ringqp.Poly`, after fix C07-5).  The Q side is a canonical
+  `RPoly` (coefficient domain, reduced rows) — what `Canon` of the harness returns for the polynomial after undoing
+  NTT / Montgomery form according to the metadata.  Scalar products and reductions are written as exact modular
+  arithmetic (their word-level implementations MRed / MForm / BRedAdd are C01's `ModRed` theorems); the transform over
+  Z_t is the bit-exact `NTT.nttStd` / `NTT.inttStd`.  `ring.ModUpExact` (level > 0, gap = 1) is modelled as exact: the
+  real one is off by one within ~2^-40·Q of ±Q/2 (probe `modupexact_zone` pins the zone down; tie lines avoid it).
+  Every function here is executed by the driver (`C07 bgv …` ops) and has a general theorem in Props/C07.lean; core Lean only.
 -/
 import Lattigo.Model.NTT
 import Lattigo.Model.RPoly
@@ -165,6 +168,23 @@ def embed (P : Params) (mods : List Nat) (scaleUp : Bool) (scale : Nat) (vals : 
     | .u v => encodeRingTU P.T P.perm v scale (List.replicate n 0)
     | .i v => encodeRingTI P.T P.perm v scale (List.replicate n 0)
   pT.map (ringT2Q mods P.T.q P.bigN scaleUp)
+
+/-- P part of `EmbedScale(values, scaleUp, metadata, ringqp.Poly{Q, P})` (encoder.go:278–297, after fix C07-5):
+    the gap embedding reduced modulo the moduli `ps` of `P`, multiplied — if `scaleUp` — by the SAME integer
+    `T⁻¹ mod Q_levelQ` as the Q part (`ecd.tInvModQ[levelQ]`, `ringP.MulScalarBigint`). -/
+def ringT2P (qs ps : List Nat) (t bigN : Nat) (scaleUp : Bool) (p : List Nat) : RPoly :=
+  let gap := bigN / p.length
+  let bigQ := RPoly.prod qs
+  let tinv := RPoly.modInv (t % bigQ) bigQ
+  let e := gapEmbed gap bigN p
+  { qs := ps, c := ps.map fun m => e.map fun x => if scaleUp then x * (tinv % m) % m else x % m }
+
+def embedP (P : Params) (ps : List Nat) (scaleUp : Bool) (scale : Nat) (vals : Vals) : Option RPoly :=
+  let n := P.T.n
+  let pT := match vals with
+    | .u v => encodeRingTU P.T P.perm v scale (List.replicate n 0)
+    | .i v => encodeRingTI P.T P.perm v scale (List.replicate n 0)
+  pT.map (ringT2P P.qs ps P.T.q P.bigN scaleUp)
 
 /-- `Encoder.Decode(pt, values)` with `len(values) = len` -/
 def decodeU (P : Params) (batched : Bool) (scale : Nat) (a : RPoly) (len : Nat) : List Nat :=
